@@ -2,7 +2,7 @@
 
 from __future__ import annotations
 
-from .. import e1, impl, refmodel
+from .. import envs, e1, impl, refmodel
 from ..chartgen import mk
 
 ID = "C15"
@@ -75,6 +75,7 @@ probe = None
 
 
 def setup():
+    envs.enable(64)  # E1-M: every 64th case again under every environment of mc/envs.py
     global probe
     impl.load()
     probe = e1.compile_probe(PROBE_SRC)
